@@ -515,9 +515,9 @@ class Formatter:
 
             t = (
                 validated["hour"],
-                validated["minute"],
-                validated["second"],
-                validated["microsecond"],
+                validated["minute"] or 0,
+                validated["second"] or 0,
+                validated["microsecond"] or 0,
             )
             if t >= (13, 0, 0, 0):
                 raise ValueError("Invalid date")
